@@ -421,6 +421,81 @@ PROPS["C20"] = {
 }
 
 
+def tsan_leg(ctx):
+    """C20 thorough: the same multi-threaded workload in a ThreadSanitizer build (nightly, -Zbuild-std)."""
+    import json, os, re, subprocess
+    if ctx["tier"] != "thorough":
+        return [], []
+    env = dict(ctx["env"])
+    env["RUSTFLAGS"] = "-Zsanitizer=thread"
+    env["CARGO_TARGET_DIR"] = os.path.join(ctx["build"], "target-tsan")
+    r = subprocess.run(["cargo", "+nightly", "build", "-Zbuild-std", "--target", "x86_64-unknown-linux-gnu", "--release", "--offline", "--quiet"],
+                       cwd=os.path.join(ctx["verif"], "harness"), env=env, capture_output=True, text=True)
+    if r.returncode != 0:
+        return [], [{"shard": -1, "build": "tsan", "kind": "tsan build failed", "stderr": r.stderr[-1500:]}]
+    binary = os.path.join(env["CARGO_TARGET_DIR"], "x86_64-unknown-linux-gnu", "release", "tvh")
+    reports, problems = [], []
+    n = 4
+    procs = []
+    for i in range(n):
+        out = os.path.join(ctx["outdir"], f"C20.tsan.{i}.json")
+        if os.path.exists(out):
+            os.remove(out)
+        e2 = dict(os.environ)
+        e2["TSAN_OPTIONS"] = "halt_on_error=0 exitcode=0"
+        cmd = [binary, "run", "C20", "--tier", "quick", "--seed", str(ctx["seed"]), "--shard", f"{i}/{n}", "--out", out, "--build", "tsan", "--scale", "0.5"]
+        procs.append((i, out, subprocess.Popen(cmd, cwd=ctx["verif"], env=e2, stdout=subprocess.DEVNULL, stderr=subprocess.PIPE)))
+    for i, out, pr in procs:
+        try:
+            _, err = pr.communicate(timeout=3600)
+        except subprocess.TimeoutExpired:
+            pr.kill()
+            problems.append({"shard": i, "build": "tsan", "kind": "watchdog"})
+            continue
+        err = (err or b"").decode(errors="replace")
+        if not os.path.exists(out):
+            problems.append({"shard": i, "build": "tsan", "kind": f"exit {pr.returncode}", "stderr": err[-800:]})
+            continue
+        rep = json.load(open(out))
+        rep["build"] = "tsan"
+        # one violation per distinct first frame inside the repository or the harness
+        blocks = err.split("WARNING: ThreadSanitizer:")[1:]
+        seen = {}
+        for b in blocks:
+            m = re.search(r"(/repo/[^\s:]+:\d+|/verif/harness/[^\s:]+:\d+)", b)
+            key = (b.split("\n", 1)[0].strip().split(" (")[0] + " @ " + (m.group(1) if m else "?"))[:160]
+            seen.setdefault(key, [0, b[:1500]])[0] += 1
+        for key, (cnt, text) in seen.items():
+            rep["violations"].append({"sig": f"C20/C20.race/ThreadSanitizer/{key}", "count": cnt,
+                                      "witnesses": [{"clause": "C20.race", "op": "ThreadSanitizer", "shape": key, "case": {"shard": i}, "got": text, "expected": "no report", "case_idx": 0}]})
+        rep.setdefault("counters", {})["tsan/reports"] = len(blocks)
+        reports.append(rep)
+    return reports, problems
+
+
+PROPS["C20"]["legs"] = [tsan_leg]
+PROPS["C20"]["rule"] += ("; thorough tier additionally re-runs the workload (4 processes) in a ThreadSanitizer build of the harness and the crate "
+                         "(nightly, -Zbuild-std): every report is a violation keyed by kind and first frame in the repository")
+
+PROPS["C02"] = {
+    "builds": ["chk", "rel"],
+    "rule": ("seeded cases over nine scenarios, each with operands within 0..3 units (ns, us, s, h, day) of a range boundary, exactly on it, and far beyond: instants at +-8.64e21 ns "
+             "(try_new, add / subtract of exact time-only durations of every largest unit, round with every valid increment and mode, from_epoch_milliseconds, until / since across the "
+             "whole range), dates at both ISO limits (try_new, add / subtract of days, weeks, months, years and huge values, until / since, conversions), date-times at both limits "
+             "(construction, add / subtract with day carries, round up across the limit, conversions), year-months at both limits, durations with one field at its limit +-2 and a second "
+             "field (construction, negated, abs, add, round), and strings of boundary values with offsets that move the instant across the limit (PlainDate / PlainDateTime / Instant / "
+             "ZonedDateTime from_str). Monitor 1: validity invariant on every returned value (fields in range, inside the representable range, duration sign-uniform and within limits). "
+             "Monitor 2: success iff the exact result (reference models of C04 / C05 / C06 / C09) is representable, and then exactly that value. Both arithmetic modes (chk, rel)"),
+    "assumptions": ["refmodel::date / c05::model_add / refmodel::dur / refmodel::round give the exact result",
+                    "arithmetic on the year-month -271821-04, whose first day precedes the first date, is not judged (as in C18)"],
+    "manifest": {
+        "technique": "runtime monitoring: validity invariant on every returned value plus exact-result boundary oracle on boundary-directed workloads, in the overflow-checking and the release build",
+        "text": "Every value a call of the workload returns is checked against the type's invariants and range, and for operands generated within a few units of each range boundary the call must succeed exactly when the exact result (computed by the reference models) is representable, returning that result. Workloads sit on the boundaries of instants, dates, date-times, year-months and duration fields and include strings whose offset moves the value across the limit. Holds on the executions generated.",
+        "note": "Trusted: the reference models named above. The other monitors' models also treat out-of-range results as RangeError, so range defects inside their workloads surface there as well.",
+    },
+}
+
+
 NOT_CLAIMED = {}
 
 
